@@ -23,7 +23,7 @@ from ..frontend import AnalysisError, norm_text
 from ..rules import ret_term, outcomes, exc_name
 from .. import effects, guards
 from .c10 import phi_leaves
-from .c16 import datetime_julian
+from .c16 import datetime_julian, doy2date_table
 
 MANIFEST = {
     "level": "other",
@@ -60,6 +60,9 @@ def run(repo, rep, tier):
     recipes(repo, rep)
     moslem_carry(repo, rep)
     daycount(repo, rep)
+    # moslem2gregorian names every civil date before 1583 through doy2date: its day-number table (shared with C16)
+    rep.fn(MOD, "Epoch.doy2date")
+    doy2date_table(repo, rep)
     stale_param(repo, rep)
     century_ctrl(repo, rep)
     thresh_gap(repo, rep)
